@@ -259,7 +259,7 @@ def body_twin(cube, **kw):
 def queries(tier):
     base = [I('t0', 0, 2), I('i0', 0, 1), I('dp', 0, 2), I('aid', 0, 1), I('att', 0, 2), I('a2', 0, 2), B('l0'), B('l1'), B('l2'), B('l3'), B('l4'), B('l5'), B('pack')]
     w = {'t0': 0, 'i0': 1, 'dp': 1, 'aid': 0, 'att': 2, 'a2': 2, 'l0': True, 'l1': True, 'l2': True, 'l3': False, 'l4': True, 'l5': True, 'pack': True}
-    pre = (['l0 + l1 + l2 + l3 + l4 + l5 <= 2', 'not pack or (l0 and l1)'] if tier == 'quick' else ['l0 + l1 + l2 + l3 + l4 + l5 <= 3', 'not pack or (l0 and l1)']) + \
+    pre = ['l0 + l1 + l2 + l3 + l4 + l5 <= 2', 'not pack or (l0 and l1)'] + \
           ['aid == 0 or (att > 0 and i0 == 0)', 'a2 == 0 or (att > 0 and l0 + l1 + l2 + l3 + l4 + l5 <= 1)']
     qs = [Query(name='old', body=body_old, params=base + [I('var', 0, 1), I('fmt', 0, 2)], pre=pre + (['fmt == var'] if tier == 'quick' else []),
                 split=['t0', 'att', 'dp'] + ([] if tier == 'quick' else ['var']), timeout=600 if tier == 'quick' else 1700,
